@@ -1,6 +1,7 @@
 import Dbg.Driver.C07
 import Dbg.Driver.C08
 import Dbg.Driver.C10
+import Dbg.Driver.C11
 /-! `dbgdriver`: one request per line on stdin (`<prop> <op> <args…>\t<implementation answer>`),
     one line per request on stdout (`<model answer>\t<verdict of holdsCxx on the implementation answer>`). -/
 open Drv
@@ -10,6 +11,7 @@ def dispatch (prop : String) (args : List String) (impl : String) : R Ans :=
   | "C07" => C07.handle args impl
   | "C08" => C08.handle args impl
   | "C10" => C10.handle args impl
+  | "C11" => C11.handle args impl
   | _ => throw s!"unknown-property:{prop}"
 
 def answer (line : String) : String :=
